@@ -442,6 +442,17 @@ impl<'a> G14<'a> {
             },
         };
         if let Some((t, name)) = text {
+            // value-only operations become a later operand of an enclosing call (stack discipline
+            // of the primitives)
+            let t = if !t.starts_with("(define ") && self.rng.chance(1, 2) {
+                if self.rng.chance(1, 2) {
+                    format!("(list 'pre {} 'post)", t)
+                } else {
+                    format!("(vector 1 (if #t {} 'never) 'post)", t)
+                }
+            } else {
+                t
+            };
             self.ops.push(name);
             self.emit(&t);
             self.dump();
